@@ -40,10 +40,14 @@ func runC07(c *core.Ctx) {
 	core.ParallelFor(n, c.Procs, func(wk, i int) {
 		srv := pool.Servers[wk]
 		r := c.Rng("tuple", i)
-		w := newWorld(r, worldOpts{Exact: i%2 == 0, Sorted: r.Intn(2) == 0, MinDays: 1, Hostile: i%5 == 0})
+		layout := []string{"2006/01/02", "2006/01/02", "2006-01-02", "02.01.2006", "Jan 2 2006"}[r.Intn(5)]
+		w := newWorld(r, worldOpts{Exact: i%2 == 0, Sorted: r.Intn(2) == 0, MinDays: 1, Hostile: i%5 == 0, Notes: true, Layout: layout})
 		srv.Write(w.Files())
 		today := gen.Date{Y: 2021, M: 3, D: 1}
 		pre := []string{"--no-color", "-d", "food.yaml", "-l", "log.yaml", "--today", today.Format(w.Layout)}
+		if w.Layout != "2006/01/02" {
+			pre = append(pre, "--date-format", w.Layout)
+		}
 		var period []string
 		var pb, pe *gen.Date
 		if r.Intn(2) == 0 {
@@ -224,6 +228,39 @@ func runC07(c *core.Ctx) {
 						if !good {
 							bad = fmt.Sprintf("Σ reg -s %s rows = %s %s %s, report totals %v", X, rs(sp), rs(sn), rs(ss), totX.Raw)
 						}
+					}
+				}
+				if bad == "" {
+					// the --csv variant shows the same rows: date;"name";pos;neg;sum
+					cRes, cArgs := runCmd(true, "reg", "-s", X, "--csv")
+					if failed {
+						return
+					}
+					cl := obs.Lines(cRes.Out)
+					if len(cl) != len(rows) {
+						bad = fmt.Sprintf("reg -s --csv prints %d rows, reg -s %d", len(cl), len(rows))
+					}
+					for k, ln := range cl {
+						if bad != "" {
+							break
+						}
+						f := strings.Split(ln, ";")
+						if len(f) < 5 {
+							bad = fmt.Sprintf("csv row %q", ln)
+							break
+						}
+						n := len(f)
+						p1, o1 := obs.Dec(f[n-3])
+						p2, o2 := obs.Dec(f[n-2])
+						p3, o3 := obs.Dec(f[n-1])
+						name := strings.Join(f[1:n-3], ";")
+						if !o1 || !o2 || !o3 || f[0] != rows[k].Date || name != "\""+X+"\"" || p1.Cmp(rows[k].Pos) != 0 || p2.Cmp(rows[k].Neg) != 0 || p3.Cmp(rows[k].Sum) != 0 {
+							bad = fmt.Sprintf("csv row %d %q differs from the plain row %s %s %s %s", k, ln, rows[k].Date, rs(rows[k].Pos), rs(rows[k].Neg), rs(rows[k].Sum))
+						}
+					}
+					if bad != "" {
+						viol("R2 reg -s --csv vs reg -s", bad, cArgs, cRes, sArgs, sRes)
+						bad = ""
 					}
 				}
 				if bad != "" {
